@@ -48,6 +48,8 @@ def gen_elem(rng):
         return 'n%d' % rng.randint(-3, 9)
     if x < 0.65:
         return 'q%d' % rng.choice([1, 2, 3, 5, 6, 10, -1, -2, -7, 13])
+    if x < 0.73:
+        return 'z'          # 空 stored as an element / value
     return 't' + rng.choice(TEXTS)
 
 
@@ -284,7 +286,11 @@ def compare(ctx, stream, cases, with_spec=True, batch=20000):
 def run_program_stream(ctx):
     """HOOK (to be filled by the program-level work): histories run as Zn programs through the interpreter —
     遍历 trace order, copies between steps, and 生成JSON key order compared with the displayed order."""
-    pass
+    from props import progs
+    g = progs.G(ctx.rng)
+    n = ctx.n(1200, 30000)
+    ps = [g.coll_program(ctx.rng.randint(3, 14)) for _ in range(n)]
+    progs.run_stream(ctx, 'coll-prog', ps, nontrivial=lambda src, go: src.count('\n') > 8)
 
 
 def run(ctx):
@@ -362,6 +368,9 @@ def run(ctx):
 
 def replay(ctx, data):
     case = data['case']
+    if case.startswith('run '):
+        from props import progs
+        return progs.replay(ctx, data)
     print('case :', case)
     print('go   :', ctx.run_go([case])[0])
     print('model:', ctx.run_lean([case])[0])
